@@ -109,6 +109,19 @@ def sealPackets (bs : Nat) (sender : Option Bytes) (rs : List Recipient) (eph pa
     | .error e => .error e
     | .ok blks => .ok (h, headerBytes, blks)
 
+/-- like `sealPackets`, for an arbitrary chunk plan (C09) -/
+def sealPacketsPlan (sender : Option Bytes) (rs : List Recipient) (eph payloadKey : Bytes)
+    (plan : List (Bytes × Bool)) : Except Err (EncHeader × Bytes × List SigncryptBlock) :=
+  match checkReceivers rs [] with
+  | .error e => .error e
+  | .ok () =>
+    let h := header P sender eph payloadKey rs
+    let headerBytes := encode h.toVal
+    let hh := P.hash headerBytes
+    match blockStructs P sender payloadKey hh plan 0 with
+    | .error e => .error e
+    | .ok blks => .ok (h, headerBytes, blks)
+
 /-- complete message given resolved randomness -/
 def sealWith (bs : Nat) (sender : Option Bytes) (rs : List Recipient) (eph payloadKey pt : Bytes) :
     Except Err Bytes :=
